@@ -909,6 +909,13 @@ func (s *Session) Encode(ctx context.Context, v interface{}) error {
 	s.out.Lock()
 	defer s.out.Unlock()
 
+	s.stateMutex.RLock()
+	closed := s.state&OutputStreamClosed == OutputStreamClosed
+	s.stateMutex.RUnlock()
+	if closed {
+		return ErrOutputStreamClosed
+	}
+
 	defer setWriteDeadline(ctx, s.conn)()
 	return marshal.EncodeXML(s.out.e, v)
 }
@@ -920,6 +927,13 @@ func (s *Session) Encode(ctx context.Context, v interface{}) error {
 func (s *Session) EncodeElement(ctx context.Context, v interface{}, start xml.StartElement) error {
 	s.out.Lock()
 	defer s.out.Unlock()
+
+	s.stateMutex.RLock()
+	closed := s.state&OutputStreamClosed == OutputStreamClosed
+	s.stateMutex.RUnlock()
+	if closed {
+		return ErrOutputStreamClosed
+	}
 
 	defer setWriteDeadline(ctx, s.conn)()
 	return marshal.EncodeXMLElement(s.out.e, v, start)
@@ -943,6 +957,13 @@ func (s *Session) SendElement(ctx context.Context, r xml.TokenReader, start xml.
 func send(ctx context.Context, s *Session, r xml.TokenReader, start *xml.StartElement) error {
 	s.out.Lock()
 	defer s.out.Unlock()
+
+	s.stateMutex.RLock()
+	closed := s.state&OutputStreamClosed == OutputStreamClosed
+	s.stateMutex.RUnlock()
+	if closed {
+		return ErrOutputStreamClosed
+	}
 
 	defer setWriteDeadline(ctx, s.conn)()
 
